@@ -17,151 +17,21 @@
 (* GrowThreshold=16 stand for 512/1024/4096 bytes; 1 for configurations    *)
 (* that use the real constants).                                           *)
 (***************************************************************************)
-EXTENDS Integers, Sequences, FiniteSets, TLC
+EXTENDS RingOps
 
-CONSTANTS MinRead, DefaultSize, GrowThreshold,
-          InitCaps,      \* capacities ring.New is called with
+CONSTANTS InitCaps,      \* capacities ring.New is called with
           WSizes,        \* argument sizes of Write
           RSizes,        \* argument sizes of Read / Peek / Discard (may contain 0 and -1)
           MaxSize,       \* transitions that would grow beyond it are not generated
-          TrackCells,    \* model the cell array (exhaustive configs) or not (real-size configs)
           ByteOps,       \* enable WriteByte / ReadByte
           RScripts,      \* reader behaviours for ReadFrom: sequences of <<kind, err>>
           WScripts,      \* writer behaviours for WriteTo:  sequences of <<kind, err>>
-          MaxDepth,      \* 0: unbounded; otherwise at most MaxDepth operations per behaviour
-          UnitIsByte     \* TRUE when one model unit is one byte (n/4 of the growth policy is then exact)
+          MaxDepth       \* 0: unbounded; otherwise at most MaxDepth operations per behaviour
 
 VARIABLES size, r, w, empty, buf, ret, depth
 vars == <<size, r, w, empty, buf, ret, depth>>
 
-Min(a, b) == IF a < b THEN a ELSE b
-
-RECURSIVE P2(_, _)
-P2(n, p) == IF p >= n THEN p ELSE P2(n, 2 * p)
-CeilPow2(n) == IF n <= 2 THEN 2 ELSE P2(n, 2)
-
-\* ok: the transition is exact at the model's granularity (see QuarterOK)
 St == [size |-> size, r |-> r, w |-> w, empty |-> empty, buf |-> buf, ok |-> TRUE]
-
-(* ---- observers, as in the code ---- *)
-BufferedOf(s) == IF s.r = s.w THEN (IF s.empty THEN 0 ELSE s.size)
-                 ELSE IF s.w > s.r THEN s.w - s.r ELSE s.size - s.r + s.w
-AvailOf(s)    == IF s.r = s.w THEN (IF s.empty THEN s.size ELSE 0)
-                 ELSE IF s.w < s.r THEN s.r - s.w ELSE s.size - s.w + s.r
-IsFullOf(s)   == s.r = s.w /\ ~s.empty
-
-(* ---- cells ---- *)
-NoCells(n)   == IF TrackCells THEN [i \in 0..(n - 1) |-> -1] ELSE <<>>
-Linear(n, b) == IF TrackCells THEN [i \in 0..(n - 1) |-> IF i < b THEN i ELSE -1] ELSE <<>>
-PutSeg(f, at, cnt, v0) == [i \in DOMAIN f |-> IF i >= at /\ i < at + cnt THEN v0 + (i - at) ELSE f[i]]
-Shift(f, n)  == [i \in DOMAIN f |-> IF f[i] < n THEN -1 ELSE f[i] - n]
-
-ResetSt(s) == [s EXCEPT !.r = 0, !.w = 0, !.empty = TRUE, !.buf = NoCells(s.size)]
-
-(* ---- grow(newCap), ring_buffer.go:487 ---- *)
-RECURSIVE Quarter(_, _)
-Quarter(n, c) == IF n < c THEN Quarter(n + (n \div 4), c) ELSE n
-\* With a model unit of 256 bytes, n + n/4 is only exact when n is a multiple of 4 units;
-\* transitions that would need a fraction of a unit are not generated (they are covered at
-\* byte granularity by the real-constant configuration and by trace validation).
-RECURSIVE QuarterOK(_, _)
-QuarterOK(n, c) == IF n < c THEN (n % 4 = 0 /\ QuarterOK(n + (n \div 4), c)) ELSE TRUE
-GrowOK(n, newCap) == UnitIsByte \/ n = 0 \/ newCap > 2 * n \/ n < GrowThreshold \/ QuarterOK(n, newCap)
-GrowCap(n, newCap) ==
-    IF n = 0 THEN (IF newCap <= DefaultSize THEN DefaultSize ELSE CeilPow2(newCap))
-    ELSE IF newCap <= 2 * n
-         THEN (IF n < GrowThreshold THEN 2 * n ELSE Quarter(n, newCap))
-         ELSE newCap
-Grow(s, newCap) ==
-    LET c == GrowCap(s.size, newCap)
-        b == BufferedOf(s)
-    IN [size |-> c, r |-> 0, w |-> b, empty |-> (b = 0), buf |-> Linear(c, b),
-        ok |-> s.ok /\ GrowOK(s.size, newCap)]
-
-(* ---- store n fresh bytes at w (two-segment copy of Write) ---- *)
-Store(s, n) ==
-    LET b == BufferedOf(s) IN
-    IF n = 0 THEN s ELSE
-    IF s.w >= s.r
-    THEN LET c1 == s.size - s.w IN
-         IF c1 >= n
-         THEN [s EXCEPT !.buf = PutSeg(s.buf, s.w, n, b),
-                        !.w = IF s.w + n = s.size THEN 0 ELSE s.w + n, !.empty = FALSE]
-         ELSE [s EXCEPT !.buf = PutSeg(PutSeg(s.buf, s.w, c1, b), 0, n - c1, b + c1),
-                        !.w = IF n - c1 = s.size THEN 0 ELSE n - c1, !.empty = FALSE]
-    ELSE [s EXCEPT !.buf = PutSeg(s.buf, s.w, n, b),
-                   !.w = IF s.w + n = s.size THEN 0 ELSE s.w + n, !.empty = FALSE]
-
-(* ---- consume n <= Buffered bytes at r, Reset when the last byte goes ---- *)
-Consume(s, n) ==
-    IF n = 0 THEN s ELSE
-    LET r1 == (s.r + n) % s.size
-        s1 == [s EXCEPT !.r = r1, !.buf = Shift(s.buf, n)]
-    IN IF r1 = s.w THEN ResetSt(s1) ELSE s1
-
-(* ---- io.Reader / io.Writer behaviours ---- *)
-Ans(kind, offered) ==
-    CASE kind = "zero" -> 0
-      [] kind = "one"  -> Min(1, offered)
-      [] kind = "half" -> offered \div 2
-      [] kind = "full" -> offered
-Hd(sc) == IF sc = <<>> THEN <<"zero", "EOF">> ELSE Head(sc)
-Tl(sc) == IF sc = <<>> THEN <<>> ELSE Tail(sc)
-
-(* ReadFrom, ring_buffer.go:343.  A read of m bytes into buf[w:] stores them *)
-(* at w; the buffer stops being empty only if m > 0; the second read into    *)
-(* buf[:r] happens only once the first segment is filled (w wrapped to 0).   *)
-StoreAtW(s, m) ==
-    IF m = 0 THEN s
-    ELSE [s EXCEPT !.buf = PutSeg(s.buf, s.w, m, BufferedOf(s)),
-                   !.w = (s.w + m) % s.size, !.empty = FALSE]
-RECURSIVE RF(_, _, _)
-RF(s0, sc, n) ==
-    LET s == IF AvailOf(s0) < MinRead THEN Grow(s0, BufferedOf(s0) + MinRead) ELSE s0 IN
-    IF s.w >= s.r
-    THEN LET a  == Hd(sc)
-             m  == Ans(a[1], s.size - s.w)
-             s1 == StoreAtW(s, m)
-         IN IF a[2] = "EOF" THEN [st |-> s1, n |-> n + m, err |-> "nil"]
-            ELSE IF a[2] = "ERR" THEN [st |-> s1, n |-> n + m, err |-> "ERR"]
-            ELSE IF s1.w # 0 THEN RF(s1, Tl(sc), n + m)
-            ELSE LET a2 == Hd(Tl(sc))
-                     m2 == Ans(a2[1], s1.r)
-                     s2 == StoreAtW(s1, m2)
-                 IN IF a2[2] = "EOF" THEN [st |-> s2, n |-> n + m + m2, err |-> "nil"]
-                    ELSE IF a2[2] = "ERR" THEN [st |-> s2, n |-> n + m + m2, err |-> "ERR"]
-                    ELSE RF(s2, Tl(Tl(sc)), n + m + m2)
-    ELSE LET a  == Hd(sc)
-             m  == Ans(a[1], s.r - s.w)
-             s1 == StoreAtW(s, m)
-         IN IF a[2] = "EOF" THEN [st |-> s1, n |-> n + m, err |-> "nil"]
-            ELSE IF a[2] = "ERR" THEN [st |-> s1, n |-> n + m, err |-> "ERR"]
-            ELSE RF(s1, Tl(sc), n + m)
-
-(* WriteTo, ring_buffer.go:395: at most two Write calls on the writer. *)
-WAns(sc, k) == IF Len(sc) >= k THEN sc[k] ELSE <<"full", "nil">>
-WT(s, sc) ==
-    IF s.empty THEN [st |-> s, n |-> 0, err |-> "ErrIsEmpty"] ELSE
-    LET b == BufferedOf(s) IN
-    IF s.w > s.r \/ s.r + b <= s.size
-    THEN LET a  == WAns(sc, 1)
-             m  == Ans(a[1], b)
-             s1 == Consume(s, m)
-         IN [st |-> s1, n |-> m,
-             err |-> IF a[2] # "nil" THEN "ERR" ELSE IF ~s1.empty THEN "ErrShortWrite" ELSE "nil"]
-    ELSE LET c1 == s.size - s.r
-             a  == WAns(sc, 1)
-             m  == Ans(a[1], c1)
-             s1 == [s EXCEPT !.r = (s.r + m) % s.size, !.buf = Shift(s.buf, m)]
-         IN IF a[2] # "nil" THEN [st |-> s1, n |-> m, err |-> "ERR"]
-            ELSE IF m < c1 THEN [st |-> s1, n |-> m, err |-> "ErrShortWrite"]
-            ELSE LET c2 == b - c1
-                     a2 == WAns(sc, 2)
-                     m2 == Ans(a2[1], c2)
-                     s2 == IF m2 = s.w THEN ResetSt([s1 EXCEPT !.buf = Shift(s1.buf, m2)])
-                                       ELSE [s1 EXCEPT !.r = m2, !.buf = Shift(s1.buf, m2)]
-                 IN [st |-> s2, n |-> m + m2,
-                     err |-> IF a2[2] # "nil" THEN "ERR" ELSE IF ~s2.empty THEN "ErrShortWrite" ELSE "nil"]
 
 (* ---- actions ---- *)
 NoRet == [op |-> "none"]
